@@ -29,7 +29,7 @@ REAL = ["rpyc.core.protocol.Connection (_box/_unbox/proxy cache/_netref_factory)
 STUB = ["sockets/poll/time/locks (simulator)"]
 ASSUMPTIONS = ["the classifier 'exact type is one of the plain value types, recursively' is what the statement says", "proxy liveness is observed "
                "through weak references"]
-PROBES = ["c03:re-receive-alive", "c03:re-receive-dropped", "c03:double-async-send", "c03:mutate", "c03:obtain", "c03:deliver", "c03:subclass-by-ref", "c03:relend-crossing-release"]
+PROBES = ["c03:re-receive-alive", "c03:re-receive-dropped", "c03:double-async-send", "c03:mutate", "c03:obtain", "c03:deliver", "c03:subclass-by-ref", "c03:relend-crossing-release", "c03:module-replaced-under-its-name"]
 D2_SIG = "UnicodeEncodeError on lone surrogate"
 
 PLAIN = (int, bool, float, complex, str, bytes, type(None), type(NotImplemented), type(Ellipsis))
@@ -180,7 +180,7 @@ def run_one(choices, params):
     conf = c.pick(("svc", "svc", "classic"))
     cfg = pair.draw_netcfg(c)
     strat = pair.draw_strategy(c)
-    info = {"states": set(), "idchecks": 0, "refcross": 0}
+    info = {"states": set(), "idchecks": 0, "refcross": 0, "made_modules": set()}
 
     def main(sim, k):
         pools = {"A": make_pool(w, "A"), "B": make_pool(w, "B")}
@@ -278,6 +278,7 @@ def run_one(choices, params):
                 raise v
 
         deferred = []
+        made_modules = info["made_modules"]
         meth = {}
 
         def fetched(name):
@@ -300,7 +301,35 @@ def run_one(choices, params):
                                                                                                   traceback.format_exc()[-900:]))
 
         def one_step2(step):
-            op = w.pick(("arg", "res", "echo", "echo-res", "rerecv", "rerecv", "drop", "twice", "mutate", "bounce", "copy", "relend"))
+            op = w.pick(("arg", "res", "echo", "echo-res", "rerecv", "rerecv", "drop", "twice", "mutate", "bounce", "copy", "relend", "reimport"))
+            if op == "reimport":
+                # a module is replaced under its name (reload / re-import): the old and the new module object are two objects
+                name = "c03mod_%s" % ("x" if w.draw(2) else "y")
+                oldm = sys.modules.get(name)
+                if oldm is None:
+                    oldm = types.ModuleType(name)
+                    oldm.VERSION = 0
+                    sys.modules[name] = oldm
+                    made_modules.add(name)
+                n0 = len(recv["B"])
+                rootbox[0].describe(oldm)
+                judge(oldm, recv["B"][-1], "module before its replacement")
+                newm = types.ModuleType(name)
+                newm.VERSION = oldm.VERSION + 1
+                sys.modules[name] = newm
+                sim.count("c03:module-replaced-under-its-name")
+                for m_ in (oldm, newm, oldm) if w.draw(2) else (newm, oldm):
+                    rootbox[0].describe(m_)
+                    got = recv["B"][-1]
+                    judge(m_, got, "module object after the name was re-bound")
+                    r = rootbox[0].echo(m_)
+                    if r is not m_:
+                        raise core.Violation("echo-not-original", "module version %d handed back to its owner arrived as %r" % (m_.VERSION, r))
+                    del got, r
+                if w.draw(2):
+                    del recv["B"][n0:]
+                info["states"].add("reimport")
+                return
             if op == "relend":
                 # lend an object, let the peer drop it, lend it again before the peer's release notice has been processed
                 # (method proxies fetched beforehand: no attribute round trip in between that would consume the notice)
@@ -526,7 +555,11 @@ def run_one(choices, params):
             raise deferred[0]
         return True
 
-    out, sim = H.simulate(choices, main, strategy=strat, netcfg=cfg, step_cap=800000)
+    try:
+        out, sim = H.simulate(choices, main, strategy=strat, netcfg=cfg, step_cap=800000)
+    finally:
+        for name in ("c03mod_x", "c03mod_y"):
+            sys.modules.pop(name, None)
     if out["kind"] == "deadlock":
         out = {"kind": "violation", "cls": "hang", "detail": "deadlock %s" % (H.blocked_in(out["report"]),), "sig": None, "report": out["report"]}
     sample = {"configuration": conf, "identity_checks": info["idchecks"], "references_crossed": info["refcross"], "kinds": sorted(info["states"])[:20]}
